@@ -301,11 +301,14 @@ REGISTRY = {
         theorems=[("PsProps.C01", "Ps.Props.C01_forward"), ("PsProps.C01", "Ps.Props.C01_sequence_exact"),
                   ("PsProps.C01", "Ps.Props.C01_blocks_nonempty"), ("PsProps.C01", "Ps.Props.C01_crossoff_tables"),
                   ("PsProps.C01", "Ps.Props.C01_crossoff_step"), ("PsProps.C01", "Ps.Props.C01_crossoff_walk_exact"),
-                  ("PsProps.C01", "Ps.Props.C01_first_multiple")],
-        tie=combine(("iter", iter_tie), ("segment", segment_tie), ("wheel", streams.WHEEL.tie), ("cross", streams.CROSS.tie)),
-        witness=combine_witness(iter_witness, streams.WHEEL.witness, streams.CROSS.witness, segment_witness), assumptions=ITER_ASSUME,
-        undischarged=["IGen ~ PrimeGenerator: the wheel layer of the sieve chain is proved (tables, step, walk, first multiple); "
-                      "the segment loop, bucket scheduling, pre-sieve and sieving-prime generation are tied by the segment stream only"],
+                  ("PsProps.C01", "Ps.Props.C01_first_multiple"), ("PsProps.C01", "Ps.Props.C01_presieve_exact"),
+                  ("PsProps.C01", "Ps.Props.C01_wheel_source")],
+        tie=combine(("iter", iter_tie), ("segment", segment_tie), ("wheel", streams.WHEEL.tie), ("cross", streams.CROSS.tie),
+                    ("presieve", streams.PRESIEVE.tie)),
+        witness=combine_witness(iter_witness, streams.WHEEL.witness, streams.CROSS.witness, streams.PRESIEVE.witness, segment_witness), assumptions=ITER_ASSUME,
+        undischarged=["IGen ~ PrimeGenerator: the wheel layer (tables, step, walk, first multiple) and the pre-sieve (16 tables, AND) of the "
+                      "sieve chain are proved; the segment loop, bucket scheduling and sieving-prime generation are tied by the segment "
+                      "stream only"],
         explanation="forward iteration = primeSeq for every start, hint, block policy and float oracle; "
                     "termination of generate_next_primes is the well-founded recursion of genNextFresh"),
     "C02": Prop(
@@ -380,7 +383,8 @@ REGISTRY = {
                   ("PsProps.C08", "Ps.Props.C08_l1_range"), ("PsProps.C08", "Ps.Props.C08_sieveSize_mod8_or_pow2"),
                   ("PsProps.C08", "Ps.Props.C08_counts_independent_of_threads"),
                   ("PsProps.C08", "Ps.Props.C08_iterator_independent")],
-        tie=combine(("cfg", streams.CFG.tie),
+        tie=combine(("cfg", streams.CFG.tie), ("presieve", streams.PRESIEVE.tie),
+                    ("presieve-portable", on_variant("portable", streams.PRESIEVE.tie)),
                     ("segment-portable", on_variant("portable", segment_tie)),
                     ("count-portable", on_variant("portable", count_tie)),
                     ("print-portable", on_variant("portable", streams.PRINT.tie))),
